@@ -33,7 +33,8 @@ from ..spec import docspec
 def norm_gamma(g: dict) -> dict:
     d = {"strategy": "plain", "L": 1, "nrow": 6, "header": "explicit", "footnote": None, "source": None,
          "new_page": False, "pageby_row": "column", "pageby_header": True, "place": ["all", "last", "last"],
-         "font": 1, "size": 9, "inner_repeat": True, "heights": [1, 2, 3], "group_cols_reversed": False}
+         "font": 1, "size": 9, "inner_repeat": True, "heights": [1, 2, 3], "group_cols_reversed": False, "recur": False,
+         "numeric_groups": False, "dup_narrow": False}
     d.update(g)
     if d["strategy"] == "plain":
         d["L"] = 0
@@ -53,6 +54,8 @@ def alphabet(gamma: dict, divider: bool = False, nulls: bool = False):
     if divider:
         evs += [(1, gg, 1) for gg in groups if gg not in (0, "s")]
         evs += [(1, gg, 3) for gg in groups if gg not in (0, "s") and gg < g["L"]]
+    if g.get("recur"):  # d = 4: the new value at level g is the value of the group before the current one (A, B, A)
+        evs += [(1, gg, 4) for gg in groups if gg not in (0, "s")]
     if nulls:  # d = 2: the new value at level g is null
         evs += [(1, gg, 2) for gg in groups if gg not in (0, "s")]
     return evs
@@ -67,6 +70,7 @@ def keys_of(gamma: dict, hist):
     g = norm_gamma(gamma)
     L, rep, strat = g["L"], g["inner_repeat"], g["strategy"]
     ordv, isdiv, fresh, sub = [0] * L, [0] * L, [0] * L, 0  # isdiv: 0 value, 1 divider '-----', 2 null
+    before, top = [None] * L, [0] * L  # per level: the value of the previous group, the largest ordinal used
     rows, subs = [], []
     for i, (h, gg, d) in enumerate(hist):
         if i > 0:
@@ -83,8 +87,14 @@ def keys_of(gamma: dict, hist):
                     pass  # entering a divider / null group consumes no ordinal
                 elif isdiv[lv] and rep:
                     pass  # leaving a divider / null group back to the value shown before it (x, -----, x)
+                elif d == 4 and before[lv] is not None:
+                    ordv[lv], before[lv] = before[lv], ordv[lv]  # the value of the group before the current one recurs (A, B, A)
                 else:
+                    before[lv] = ordv[lv]
                     ordv[lv] = ordv[lv] + 1 if rep else fresh[lv]
+                    if rep and before[lv] is not None and d != 4:
+                        ordv[lv] = max(ordv[lv], top[lv] + 1)
+                    top[lv] = max(top[lv], ordv[lv])
                 isdiv[lv] = int(d) if d in (1, 2) else 0
                 for l in range(lv + 1, L):
                     fresh[l] += 1
@@ -122,6 +132,12 @@ def spec_of(gamma: dict, hist) -> dict:
         spec["body"] = body
     pb, sl, _ = keys_of(g, hist)
     strat = g["strategy"]
+    if g.get("dup_narrow"):
+        # the second column repeats the first column's text in a column a third as wide
+        spec["dup_cols"] = {"c1": "c0"}
+        spec["col_rel_width"] = [3, 1]
+    if g.get("numeric_groups"):
+        spec["page_by_numeric"] = True
     if strat == "page_by":
         spec["page_by"] = pb
         spec["new_page"] = g["new_page"]
@@ -193,12 +209,15 @@ def observe(gamma: dict, hist, keep_doc: bool = False) -> Obs:
     if d.errors:
         o.error = f"unparseable: {d.errors[:2]}"
         return o
+    numeric_groups = norm_gamma(gamma).get("numeric_groups")
     for pg in d.pages:
         items = []
         for blk in pg.blocks:
             role, info = docspec.block_role(blk)
             if role == "blank":
                 continue
+            if role == "row_other" and numeric_groups and blk.kind == "row" and len(blk.cells) == 1 and re.fullmatch(r"-?\d+", blk.cells[0].text.strip() or "x"):
+                role, info = "group", ("G", 0, int(blk.cells[0].text.strip()))  # numeric page_by value shown as heading
             lines = row_lines(blk) if blk.kind == "row" else 1
             txt = blk.text if blk.kind == "para" else (" ".join(blk.texts) if blk.kind == "row" else "")
             if "-----" in txt:
